@@ -483,6 +483,8 @@ impl<'a> Cur<'a> {
                 self.i += 1;
                 Ok(t)
             }
+            // a name that starts with a digit is lexed as a number: its own class of defect
+            Some(t) if t.kind == TokKind::Num => self.fail(true, "expected identifier, found a name that starts with a digit"),
             _ => self.fail(true, "expected identifier"),
         }
     }
